@@ -10,6 +10,7 @@ import (
 	"path/filepath"
 	"reflect"
 	"runtime"
+	"sort"
 	"strconv"
 	"strings"
 	"time"
@@ -631,14 +632,13 @@ func c12Run(sc *C12Scenario) *c12Outcome {
 			}
 		}
 		race0 := raceLogSize()
+		runRace0 = race0
+		defer func() { runRace0 = -1 }()
 		res := simrt.RunTasks(fns, 120*time.Second)
 		out.stats = simrt.Snapshot()
 		out.trace = simrt.Trace()
 		if raceLogSize() > race0 {
-			log := raceLogText()
-			if len(log) > int(race0) {
-				log = log[race0:]
-			}
+			log := raceLogFrom(race0, 1<<20)
 			sig, both, first := raceSignature(log)
 			simrt.SeamsOn(false, false)
 			if !both {
@@ -817,6 +817,25 @@ func genReader(r *rng, textLen int, allowFail bool) *ReaderPlan {
 	return p
 }
 
+// bracketDepth is the deepest nesting of brackets in text.
+func bracketDepth(text string) int {
+	d, max := 0, 0
+	for i := 0; i < len(text); i++ {
+		switch text[i] {
+		case '(', '{', '[', '<':
+			d++
+			if d > max {
+				max = d
+			}
+		case ')', '}', ']', '>':
+			if d > 0 {
+				d--
+			}
+		}
+	}
+	return max
+}
+
 func c12GenScenario(r *rng, all []corpusFile, concurrent bool, lex int) *C12Scenario {
 	sc := &C12Scenario{}
 	pickTarget := func() corpusFile {
@@ -849,6 +868,17 @@ func c12GenScenario(r *rng, all []corpusFile, concurrent bool, lex int) *C12Scen
 		}
 		if len(small) == 0 {
 			small = all
+		}
+		if r.chance(1, 2) {
+			// ... half of the crowds all parse the SAME text, one of the five most
+			// deeply nested small texts (the demanding ones: what is budgeted per
+			// process is exceeded when many callers are deep inside at once)
+			sort.SliceStable(small, func(i, j int) bool { return bracketDepth(small[i].Text) > bracketDepth(small[j].Text) })
+			n := 5
+			if n > len(small) {
+				n = len(small)
+			}
+			small = []corpusFile{small[r.intn(n)]}
 		}
 	}
 	for i := 0; i < nt; i++ {
